@@ -9,6 +9,8 @@ from .core import _NOCONST
 from .interp import VEmptyList, VEmptySet, TOptObj, TDictRec, Interp, SpecUndef
 from . import frontend
 from . import jsonmodel as JM
+from . import jsontree
+from .jsontree import VJDict, VJSet, VJList, VWStr
 
 
 # =============================================================== operators
@@ -85,6 +87,14 @@ def binop(I, op, a, b):
         return I.ver.opaque_str("pct", VTuple([a, b]), I)
     if isinstance(op, ast.BitOr) and isinstance(a, VSet) and isinstance(b, VSet):
         raise Unsupported("set union")
+    if (isinstance(a, VJSet) and isinstance(b, (VJSet, VEmptySet))) or (isinstance(b, VJSet) and isinstance(a, VEmptySet)):
+        return jsontree.set_binop(I, op, a, b)
+    if isinstance(a, VEmptySet) and isinstance(b, VEmptySet) and isinstance(op, (ast.Sub, ast.BitAnd, ast.BitOr)):
+        return VEmptySet()
+    if isinstance(op, ast.Add) and (isinstance(a, VJList) or isinstance(b, VJList)):
+        xs, ys = jsontree.list_items_of(I, a), jsontree.list_items_of(I, b)
+        if xs is not None and ys is not None and not isinstance(a, VTuple) and not isinstance(b, VTuple):
+            return VJList(xs + ys)
     if I.spec:
         raise Unsupported("binop %s on %s,%s" % (type(op).__name__, type(a).__name__, type(b).__name__))
     I.raise_exc("TypeError", "unsupported operand types")
@@ -99,6 +109,17 @@ def contains(I, cont, x):
         cont = I.force(cont)
     if isinstance(cont, VEmptySet):
         return z3.BoolVal(False)
+    if isinstance(cont, VDRec):
+        c = const_of(x) if isinstance(x, VStr) else _NOCONST
+        if isinstance(c, str):
+            return cont.has(c)
+        if isinstance(x, VStr):
+            return z3.Or([z3.And(x.e == z3.StringVal(fn), cont.has(fn)) for fn in cont.t.fields] + [z3.BoolVal(False)])
+        return z3.BoolVal(False)
+    if isinstance(cont, VJDict):
+        return jsontree.contains(I, cont, x)
+    if isinstance(cont, (VJSet, VJList)):
+        return jsontree.set_contains(I, cont, x)
     if isinstance(cont, VMap) or isinstance(cont, VSet):
         if isinstance(x, VOpt) and not isinstance(cont.kt, TOpt) and x.t.inner == cont.kt:
             return z3.And(z3.Not(x.is_none()), z3.Select(cont.dom, x.t.dt.val(x.e)))
@@ -190,12 +211,26 @@ def subscript(I, o, k):
         for j in range(len(o.items) - 2, -1, -1):
             cur = I.ite(idx == j, o.items[j], cur)
         return cur
+    if isinstance(o, VDRec):
+        c = const_of(k) if isinstance(k, VStr) else _NOCONST
+        if not isinstance(c, str):
+            raise Unsupported("symbolic key into a dict-shaped record")
+        if c not in o.t.fields:
+            I.raise_exc("KeyError", c)
+        I.require_defined(o.has(c), "KeyError", c)
+        return o.field(c)
+    if isinstance(o, VJDict):
+        return jsontree.subscript(I, o, k)
+    if isinstance(o, VJList):
+        return jsontree.list_subscript(I, o, k)
     if isinstance(o, VDictRec):
         c = const_of(k) if isinstance(k, VStr) else _NOCONST
         if isinstance(c, str):
             if c in o.fields:
                 return o.fields[c]
             I.raise_exc("KeyError", c)
+        if not o.fields:
+            I.raise_exc("KeyError", "empty dict")
         raise Unsupported("symbolic key into literal dict")
     if isinstance(o, VStr):
         idx = to_int(k)
@@ -223,6 +258,8 @@ def slice_(I, o, lo, hi):
     o = I.force(o) if not I.spec else o
     if isinstance(o, VEmptyList):
         return VEmptyList()
+    if isinstance(o, VJList):
+        return jsontree.list_slice(I, o, lo, hi)
     if isinstance(o, VSeq):
         n = o.n
 
@@ -267,8 +304,19 @@ def slice_(I, o, lo, hi):
 
 # --------------------------------------------------------------- map mutation primitives
 
+def check_literal_shape(I, v, t):
+    """a dict literal stored where a dict-shaped record is expected: its key set is an obligation"""
+    if isinstance(t, TDRec) and isinstance(v, VDictRec):
+        ok = drec_shape_ok(v, t)
+        I.path.prove(z3.BoolVal(ok), "%s/dict-shape:%s" % (I.cur_obl_prefix(), t.nm), "shape",
+                     where="keys %s == documented keys of %s" % (sorted(v.fields), t.nm))
+        if not ok:
+            raise PathEnd("dict literal of the wrong shape")
+
+
 def map_store(I, m, kk, v):
     """m[kk] = v  (kk z3 key expr)"""
+    check_literal_shape(I, v, m.vt)
     was = z3.Select(m.dom, kk)
     ve = unwrap(v, m.vt)
     I.ver.on_map_store(I, m, kk, ve, was)
@@ -332,6 +380,9 @@ def store_subscript(I, o, k, v):
         o.arr = z3.Store(o.arr, idx, unwrap(v, o.et))
         o.writeback()
         return
+    if isinstance(o, VJDict):
+        jsontree.store(I, o, k, v)
+        return
     if isinstance(o, VDictRec):
         c = const_of(k) if isinstance(k, VStr) else _NOCONST
         if isinstance(c, str):
@@ -367,6 +418,9 @@ def del_subscript(I, o, k):
         kk = unwrap(k, o.kt)
         I.require_defined(z3.Select(o.dom, kk), "KeyError", "del missing key")
         map_remove(I, o, kk)
+        return
+    if isinstance(o, VJDict):
+        jsontree.delete(I, o, k)
         return
     if isinstance(o, VDictRec):
         c = const_of(k)
@@ -509,8 +563,14 @@ def get_attribute(I, o, name, default=_NOCONST):
     elif isinstance(o, VMap):
         if name in MAP_METHODS:
             return VFunc("bmethod", name, selfv=o)
-    elif isinstance(o, VDictRec):
+    elif isinstance(o, (VDictRec, VJDict, VDRec)):
         if name in MAP_METHODS:
+            return VFunc("bmethod", name, selfv=o)
+    elif isinstance(o, VJList):
+        if name in SEQ_METHODS:
+            return VFunc("bmethod", name, selfv=o)
+    elif isinstance(o, VWStr):
+        if name in STR_METHODS:
             return VFunc("bmethod", name, selfv=o)
     elif isinstance(o, (VSet, VEmptySet)):
         if name in SET_METHODS:
@@ -625,6 +685,8 @@ def call(I, f, args, kwargs, node=None):
                 I.spec = saved
         if f.kind in ("ast", "lambda"):
             c = I.ver.contract_for_call(f, I)
+            if c is not None and any(isinstance(a, VNaN) for a in list(args) + list(kwargs.values())):
+                c = None      # contracts are stated over real-valued floats: a nan argument is outside their types -> inline
             if c is not None:
                 return call_contract(I, c, f, args, kwargs)
             if I.spec and f.kind == "ast":
@@ -856,9 +918,19 @@ def bi_len(I, args, kw):
         return VInt(len(v.items))
     if isinstance(v, VDictRec):
         return VInt(len(v.fields))
+    if isinstance(v, VDRec):
+        return VInt(z3.Sum([z3.If(v.has(fn), 1, 0) for fn in v.t.fields] + [z3.IntVal(0)]))
+    if isinstance(v, VJDict):
+        return VInt(len(v.slots))
+    if isinstance(v, (VJSet, VJList)):
+        return VInt(len(v.items))
     if isinstance(v, VStr):
         return VInt(z3.Length(v.e))
     if isinstance(v, VMapView):
+        if isinstance(v.m, VJDict):
+            return VInt(len(v.m.slots))
+        if isinstance(v.m, VDictRec):
+            return VInt(len(v.m.fields))
         return VInt(v.m.card)
     if isinstance(v, VObj):
         ci = I.class_of(v)
@@ -886,6 +958,12 @@ def bi_int(I, args, kw):
         return VInt(to_int(v))
     if isinstance(v, VReal):
         return VInt(real_to_int_trunc(v.e))
+    if isinstance(v, VStr) and isinstance(const_of(v), str) and not I.spec:
+        # a concrete string: decided by the host python (same CPython int() semantics), no solver involved
+        try:
+            return VInt(int(const_of(v)))
+        except ValueError:
+            I.raise_exc("ValueError", "invalid literal for int()")
     if isinstance(v, VStr):
         # int(str): uninterpreted predicate/function pair (int_parses, int_value) that agrees with the decimal
         # reading on plain digit strings; other accepted spellings (sign, blanks, underscores) stay abstract
@@ -916,6 +994,34 @@ def int_parse_terms(I, e):
     return ip(e), iv(e)
 
 
+def isdigit_term(I, e):
+    """str.isdigit(): uninterpreted predicate with the trusted facts
+         isdigit(s) => s != ""                                    (python: empty string is not a digit string)
+         s in [0-9]+ => isdigit(s)                                (and int(s) parses: int_parse_terms)
+         isdigit((U+00B2))  and  not int_parses((U+00B2))          (SUPERSCRIPT TWO is a digit but not a decimal:
+                                                                   isdigit does NOT imply that int() accepts s)"""
+    f = z3.Function("str_isdigit", z3.StringSort(), z3.BoolSort())
+    if not getattr(I.path, "_isdigit_axiom", False):
+        I.path._isdigit_axiom = True
+        x = z3.String("idg_x")
+        ip, _ = int_parse_terms(I, z3.StringVal("0"))
+        ipf = ip.decl()
+        I.path.assume(z3.ForAll([x], z3.Implies(f(x), z3.Length(x) > 0), patterns=[f(x)]))
+        I.path.assume(z3.ForAll([x], z3.Implies(z3.InRe(x, z3.Plus(z3.Range("0", "9"))), f(x)), patterns=[f(x)]))
+        sup2 = z3.StringVal(chr(0xb2))
+        I.path.assume(z3.And(f(sup2), z3.Not(ipf(sup2))))
+        I.ver.note_assumption("str.isdigit(): uninterpreted except: false on '', true on [0-9]+, true on U+00B2 which int() rejects")
+    return f(e)
+
+
+def sp_nan(I, args, kw):
+    return VNaN()
+
+
+def sp_is_nan(I, args, kw):
+    return VBool(isinstance(args[0], VNaN))
+
+
 def sp_int_parses(I, args, kw):
     return VBool(int_parse_terms(I, args[0].e)[0])
 
@@ -930,6 +1036,8 @@ def bi_float(I, args, kw):
     v = I.force(args[0]) if not I.spec else args[0]
     if is_num(v):
         return VReal(to_real(v))
+    if isinstance(v, VNaN):
+        return v
     if isinstance(v, VStr):
         if I.spec:
             raise Unsupported("float(str) in spec")
@@ -990,6 +1098,8 @@ def sp_fs_key(I, args, kw):
 
 def bi_abs(I, args, kw):
     v = I.force(args[0]) if not I.spec else args[0]
+    if isinstance(v, VNaN):
+        return v
     if isinstance(v, VReal):
         return VReal(z3.If(v.e >= 0, v.e, -v.e))
     if isinstance(v, (VInt, VBool)):
@@ -1056,12 +1166,20 @@ def _isinst(I, v, nm):
         return nm in ("bool", "int")
     if isinstance(v, VInt):
         return nm == "int"
-    if isinstance(v, VReal):
+    if isinstance(v, (VReal, VNaN)):
         return nm == "float"
     if isinstance(v, VStr):
         return nm in ("str",)
     if isinstance(v, VNone):
         return nm == "NoneType"
+    if isinstance(v, (VJDict, VDRec)):
+        return nm in ("dict", "Mapping", "MutableMapping")
+    if isinstance(v, VJSet):
+        return nm == "set"
+    if isinstance(v, VJList):
+        return nm in ("list", "Sequence")
+    if isinstance(v, VWStr):
+        return nm == "str"
     if isinstance(v, (VMap, VDictRec)):
         return nm in ("dict", "Mapping", "MutableMapping", "OrderedDict") if not (nm == "OrderedDict" and getattr(v, "order", None) is None) else False
     if isinstance(v, (VSeq, VEmptyList)):
@@ -1143,6 +1261,12 @@ def bi_list(I, args, kw):
 
 
 def to_seq(I, v):
+    if isinstance(v, VJList):
+        return VJList(v.items)
+    if isinstance(v, VMapView) and isinstance(v.m, VJDict):
+        return VJList(jsontree.view_items(I, v))
+    if isinstance(v, VJDict):
+        return VJList([k for k, _ in v.slots])
     if isinstance(v, VSeq):
         return VSeq(v.arr, v.n, v.et, "list")
     if isinstance(v, VEmptyList):
@@ -1219,6 +1343,10 @@ def bi_dict(I, args, kw):
     if not args:
         return VDictRec(dict(kw))
     v = I.force(args[0])
+    if isinstance(v, VDRec):
+        return v
+    if isinstance(v, VJDict):
+        return VJDict(v.slots)
     if isinstance(v, VDictRec):
         d = VDictRec(dict(v.fields))
         d.fields.update(kw)
@@ -1240,6 +1368,9 @@ def bi_set(I, args, kw):
     v = I.force(args[0])
     if isinstance(v, VSet):
         return VSet(v.dom, v.card, v.kt)
+    js = jsontree.to_set(I, v)
+    if js is not None:
+        return js
     if isinstance(v, VSeq):
         p = I.path
         s = I.fresh_value(TSet(v.et), "setof")
@@ -1278,6 +1409,10 @@ def bi_sorted(I, args, kw):
     rev = kw.get("reverse")
     if rev is not None and const_of(rev) is not False:
         raise Unsupported("sorted(reverse=...)")
+    if key is None and not I.spec:
+        r = jsontree.sorted_of(I, v)       # python-side JSON model: exact sort by forking on comparisons
+        if r is not None:
+            return r
     if isinstance(v, (VMapView, VMap)) and key is None:
         view = v if isinstance(v, VMapView) else VMapView(v, "keys")
         if view.kind == "keys" and isinstance(view.m, VMap):
@@ -1290,8 +1425,9 @@ def bi_sorted(I, args, kw):
     return sort_seq(I, v, key)
 
 
-def sort_seq(I, v, key):
-    """trusted contract of sorted()/list.sort(): a stable permutation ordered by key"""
+def sort_seq(I, v, key, reverse=False):
+    """trusted contract of sorted()/list.sort(): a stable permutation ordered by key (reverse=True: descending
+    keys, elements with equal keys keep their original relative order)"""
     p = I.path
     if isinstance(v, VEmptyList):
         return v
@@ -1319,7 +1455,7 @@ def sort_seq(I, v, key):
         finally:
             I.spec = saved
     ki, kj = keyof(z3.Select(res.arr, i)), keyof(z3.Select(res.arr, j))
-    le = I.lt(ki, kj, False)
+    le = I.lt(kj, ki, False) if reverse else I.lt(ki, kj, False)
     keq = I.eq(ki, kj)
     p.assume(z3.ForAll([i, j], z3.Implies(z3.And(0 <= i, i < j, j < n), le)))
     p.assume(z3.ForAll([i, j], z3.Implies(z3.And(0 <= i, i < j, j < n, keq), sg(i) < sg(j))))
@@ -1645,6 +1781,7 @@ BUILTIN_FUNCS = {
     "choose": gh_choose, "map_set_all": gh_map_set_all,
     "map_put": sp_map_put, "map_del": sp_map_del, "perm_of": sp_perm_of, "enc_eq": sp_enc_eq,
     "lemma_pigeonhole": gh_lemma_pigeonhole, "int_parses": sp_int_parses, "int_value": sp_int_value,
+    "nan": sp_nan, "is_nan": sp_is_nan,
     "len": bi_len, "int": bi_int, "float": bi_float, "bool": bi_bool, "str": bi_str, "abs": bi_abs,
     "min": bi_min, "max": bi_max, "isinstance": bi_isinstance, "hasattr": bi_hasattr, "getattr": bi_getattr,
     "setattr": bi_setattr, "callable": bi_callable, "list": bi_list, "tuple": bi_tuple, "dict": bi_dict,
@@ -1655,6 +1792,9 @@ BUILTIN_FUNCS = {
     "fs_name_of": lambda I, a, k: __import__("pyvc.fsmodel", fromlist=["x"]).sp_fs_name_of(I, a, k),
     "fs_temp_name": lambda I, a, k: __import__("pyvc.fsmodel", fromlist=["x"]).sp_fs_temp_name(I, a, k),
 }
+BUILTIN_FUNCS.update(jsontree.SPEC_FUNCS)
+from . import ext_listing as _ext_listing
+BUILTIN_FUNCS.update(_ext_listing.SPEC_FUNCS)
 BUILTIN_TYPES = {"int": bi_int, "float": bi_float, "bool": bi_bool, "str": bi_str, "list": bi_list,
                  "tuple": bi_tuple, "dict": bi_dict, "set": bi_set, "object": bi_object, "deque": bi_deque,
                  "OrderedDict": bi_ordereddict}
@@ -1710,6 +1850,14 @@ def call_bmethod(I, o, name, args, kw):
             return VEmptyList()
     if isinstance(o, VMap):
         return map_method(I, o, name, args, kw)
+    if isinstance(o, VDRec):
+        return drec_method(I, o, name, args, kw)
+    if isinstance(o, VJDict):
+        return jsontree.method(I, o, name, args, kw)
+    if isinstance(o, VJList):
+        return jsontree.list_method(I, o, name, args, kw)
+    if isinstance(o, VWStr):
+        return jsontree.w_method(I, o, name, args, kw)
     if isinstance(o, VDictRec):
         return dictrec_method(I, o, name, args, kw)
     if isinstance(o, (VSet, VEmptySet)):
@@ -1728,6 +1876,7 @@ def seq_method(I, o, name, args, kw):
     p = I.path
     i = z3.Int("sm_i")
     if name == "append":
+        check_literal_shape(I, args[0], o.et)
         o.arr = z3.Store(o.arr, o.n, unwrap(args[0], o.et))
         o.n = z3.simplify(o.n + 1)
         o.writeback()
@@ -1788,7 +1937,11 @@ def seq_method(I, o, name, args, kw):
         o.writeback()
         return VNone()
     if name == "sort":
-        r = sort_seq(I, VSeq(o.arr, o.n, o.et, "list"), kw.get("key"))
+        rev = kw.get("reverse")
+        rev = False if rev is None else const_of(rev)
+        if not isinstance(rev, bool):
+            raise Unsupported("list.sort(reverse=<symbolic>)")
+        r = sort_seq(I, VSeq(o.arr, o.n, o.et, "list"), kw.get("key"), reverse=rev)
         o.arr, o.n = r.arr, r.n
         o.writeback()
         return VNone()
@@ -1885,6 +2038,15 @@ def map_method(I, m, name, args, kw):
             for k2, v2 in other.fields.items():
                 map_store(I, m, z3.StringVal(k2), v2)
             return VNone()
+        if isinstance(other, VMap) and other.kt == m.kt and other.vt == m.vt and const_of(VInt(m.card)) == 0 \
+                and (m.order is None or other.order is not None) and not I.ver._aggs_for(m):
+            # update of an *empty* dict (e.g. right after .clear()): the result is a copy of the argument
+            m.dom, m.val, m.card = other.dom, other.val, other.card
+            if m.order is not None:
+                m.order.arr, m.order.n = other.order.arr, other.order.n
+                m.pos = getattr(other, "pos", None)
+            m.writeback()
+            return VNone()
         raise Unsupported("dict.update with symbolic map")
     if name == "move_to_end":
         if m.order is None:
@@ -1919,6 +2081,44 @@ def map_method(I, m, name, args, kw):
     raise Unsupported("dict.%s" % name)
 
 
+def drec_method(I, d, name, args, kw):
+    """methods of a dict-shaped record (read-only dict protocol)"""
+    if name == "get":
+        k = args[0] if I.spec else I.force(args[0])
+        c = const_of(k) if isinstance(k, VStr) else _NOCONST
+        default = args[1] if len(args) > 1 else kw.get("default", VNone())
+        if not isinstance(c, str):
+            if not isinstance(k, VStr):
+                return default
+            raise Unsupported("symbolic key lookup in a dict-shaped record")
+        if c not in d.t.fields:
+            return default
+        val = d.field(c)
+        if c in d.t.required:
+            return val
+        ft = d.t.fields[c]
+        if isinstance(default, VDictRec) and not default.fields and isinstance(ft, TMap):
+            default = I.empty_map(ft)
+        if isinstance(default, VEmptyList) and isinstance(ft, TList):
+            default = VSeq(z3.K(z3.IntSort(), I.default_of(ft.elem)), z3.IntVal(0), ft.elem, ft.kind)
+        present = d.has(c)
+        try:
+            if isinstance(default, VNone):
+                t = ft if isinstance(ft, TOpt) else TOpt(ft)
+                return t.wrap(z3.If(present, unwrap(val, t), t.none()))
+            return I.ite(present, val, default)
+        except (Unsupported, TypeError):
+            pass
+        if I.spec:
+            raise Unsupported("dict-shaped record .get with an incompatible default in a specification")
+        if I.path.branch(present):
+            return val
+        return default
+    if name == "copy":
+        return d
+    raise Unsupported("dict-shaped record .%s" % name)
+
+
 def dictrec_method(I, d, name, args, kw):
     if name == "get":
         k = I.force(args[0])
@@ -1926,9 +2126,11 @@ def dictrec_method(I, d, name, args, kw):
         default = args[1] if len(args) > 1 else VNone()
         if isinstance(c, str):
             return d.fields.get(c, default)
-        if not isinstance(k, VStr):
-            return default
         if not d.fields:
+            return default
+        if isinstance(k, VWStr):
+            raise Unsupported("abstract key lookup in a literal dict")
+        if not isinstance(k, VStr):
             return default
         # symbolic key into a literal table of scalars: if-then-else chain over the (distinct) literal keys
         try:
@@ -1949,13 +2151,13 @@ def dictrec_method(I, d, name, args, kw):
             return VNone()
         raise Unsupported("literal dict update with symbolic map")
     if name == "pop":
-        c = const_of(args[0])
-        if isinstance(c, str):
-            if c in d.fields:
+        c = const_of(args[0]) if not jsontree.is_j(args[0]) else _NOCONST
+        if isinstance(c, str) or not d.fields:
+            if isinstance(c, str) and c in d.fields:
                 return d.fields.pop(c)
             if len(args) > 1:
                 return args[1]
-            I.raise_exc("KeyError", c)
+            I.raise_exc("KeyError", str(c))
     if name == "setdefault":
         c = const_of(args[0])
         if isinstance(c, str):
@@ -2076,8 +2278,14 @@ def str_method(I, s, name, args, kw):
         I.path.assume(z3.And(r >= 0, r <= z3.Length(s.e)))
         I.ver.note_assumption("str.count is uninterpreted (0 <= count <= len)")
         return VInt(r)
+    if name == "isdigit":
+        if isinstance(const_of(s), str):
+            return VBool(const_of(s).isdigit())     # concrete string: host python decides
+        return VBool(isdigit_term(I, s.e))
     if name == "join":
         xs = I.force(args[0])
+        if isinstance(xs, (VTuple, VJList)) and any(isinstance(x, VWStr) for x in xs.items):
+            return jsontree.w_join(I, s, xs.items)
         if isinstance(xs, VTuple):
             if not xs.items:
                 return VStr("")
@@ -2366,6 +2574,12 @@ def _iter_protocol(I, it):
         return ("concrete", [VStr(k) for k in it.fields])
     if isinstance(it, VMapView) and isinstance(it.m, VDictRec):
         return ("concrete", to_seq_items(I, it))
+    if isinstance(it, VMapView) and isinstance(it.m, VJDict):
+        return ("concrete", jsontree.view_items(I, it))     # insertion order, as python dicts
+    if isinstance(it, VJDict):
+        return ("concrete", [k for k, _ in it.slots])
+    if isinstance(it, VJList):
+        return ("concrete", list(it.items))
     if isinstance(it, VSeq):
         snap = VSeq(it.arr, it.n, it.et, it.kind)
         return ("seq", snap.n, lambda i: snap.get(i))
